@@ -434,6 +434,19 @@ def oracle(ctx, hints, effort):
         if r:
             add(r[0], f"eigen-solver failure at (layer, mode, coherent)={r[1]}: expected {r[2]}, got {r[3]}",
                 {"kind": "faults", "scene": sc, "active": active, "m_max": mmax}, r[3], r[2])
+    # a pack far deeper than any threshold, pruned at integer thresholds above the recommended 6 (given as Python ints, as users write them)
+    # (fine grains: the field decays by absorption, so what lies between optical depth 6 and 15 still contributes a few hundredths of a kelvin)
+    for tau_ in (15, 12):
+        deep_ = dict(thickness=[10.0, 20.0, 30.0, 40.0], density=[250.0, 300.0, 350.0, 400.0], temperature=[250.0, 225.0, 260.0, 235.0],
+                     microstructure="exponential", frequency=37e9, micro=dict(corr_length=[3e-5] * 4),
+                     substrate=dict(kind="flat", T=270.0, eps=[6.0, 0.5]), emmodel="iba", nmax=16)
+        try:
+            evals += 2
+            r = check_prune(deep_, tau_)
+        except AssertionError:
+            r = None
+        if r:
+            add(r[0], "pruning changes Tb more than the bound", {"kind": "prune", "scene": deep_, "tau": tau_}, r[1], r[2])
     for it in range(-2, 3 if effort == "routine" else 30):
         active = it % 3 == 2
         sc = scenes.random_scene(rng, lossless=False, microstructure="exponential", max_layers=4, atmosphere=False, active=active, thick=(0.05, 5.0))
